@@ -1,16 +1,17 @@
 #!/bin/bash
 # Run once after a fresh restore, offline: warm the Go build cache (SQLite amalgamation, dependencies).
+VERIF="$(cd "$(dirname "${BASH_SOURCE[0]}")" && pwd)"
 export GOFLAGS=-mod=mod GOPROXY=off GOSUMDB=off GOTOOLCHAIN=local CGO_ENABLED=1
 export PATH=/opt/veriftools/go1.26.8/bin:$PATH
 GO=go1.26.8; command -v $GO >/dev/null || GO=/opt/veriftools/go1.26.8/bin/go
 SCR=/var/tmp/verif-setup-$$
 trap 'rm -rf "$SCR"' EXIT
-mkdir -p "$SCR" /verif/bin /verif/evidence
-( cd /verif/instrument && $GO build -o /verif/bin/pegsim-instrument . ) || { echo "setup: cannot build pegsim-instrument"; exit 1; }
+mkdir -p "$SCR" $VERIF/bin $VERIF/evidence
+( cd $VERIF/instrument && $GO build -o $VERIF/bin/pegsim-instrument . ) || { echo "setup: cannot build pegsim-instrument"; exit 1; }
 rsync -a --exclude .git /repo/ "$SCR/repo/"
-SIMRT_DIR=/verif/pegsim/simrt /verif/bin/pegsim-instrument "$SCR/repo" > "$SCR/instrument.json" || { echo "setup: instrumentation failed"; exit 1; }
-sed "s#=> /var/tmp/pegsim-scratch/repo#=> $SCR/repo#; s#=> ./simrt#=> /verif/pegsim/simrt#" /verif/pegsim/go.mod > "$SCR/go.mod"
-cp /verif/pegsim/go.sum "$SCR/go.sum"
-( cd /verif/pegsim && $GO test -c -tags verif -modfile="$SCR/go.mod" -o "$SCR/pegsim.test" ./h ) > "$SCR/build.log" 2>&1
+SIMRT_DIR=$VERIF/pegsim/simrt $VERIF/bin/pegsim-instrument "$SCR/repo" > "$SCR/instrument.json" || { echo "setup: instrumentation failed"; exit 1; }
+sed "s#=> /var/tmp/pegsim-scratch/repo#=> $SCR/repo#; s#=> ./simrt#=> $VERIF/pegsim/simrt#" $VERIF/pegsim/go.mod > "$SCR/go.mod"
+cp $VERIF/pegsim/go.sum "$SCR/go.sum"
+( cd $VERIF/pegsim && $GO test -c -tags verif -modfile="$SCR/go.mod" -o "$SCR/pegsim.test" ./h ) > "$SCR/build.log" 2>&1
 [ -x "$SCR/pegsim.test" ] || { echo "setup: build failed"; grep -v "warning\|sqlite3-binding\|note:\|~~~\|\^" "$SCR/build.log" | tail -20; exit 1; }
 echo "setup ok"
